@@ -33,3 +33,31 @@ CONFIGS["C08"] = dict(
                  "by-construction result (channels are untyped in Ego, so the programs are not literally Go)"],
     required_probes=["racy_programs", "synchronised_programs", "site/blocked:mutex", "site/blocked:chan-recv"],
 )
+
+CONFIGS["C09"] = dict(
+    prop="C09", engine="vm-leak", pkg="internal/verifsim/vmharness", harness="C09",
+    extra_harness=[],
+    level="exploration",
+    level_text="seeded search over (generated program with a generated exit path x number of repeated executions x "
+               "schedule): the real compiler and VM execute each program 1-3 times inside one simulated process; then the "
+               "fake clock advances ten minutes with the scheduler running everything runnable, which is an exact "
+               "quiescence point; every goroutine started by repo code is a scheduler task with a recorded creation site, so "
+               "the set of goroutines still alive is exact. Allowed: only the Ego goroutines the program itself left blocked "
+               "(count known by construction).",
+    technique="deterministic simulation: exact quiescence on a fake clock + task census by creation site",
+    rewrite=dict(dirs=ALL_INTERNAL, step=True, chan=["internal/language/data/channel.go"]),
+    extra_files=[VM_HELPER],
+    race="none",
+    quick=dict(runs=1500, per_proc=100, budget_s=200),
+    thorough=dict(runs=60000, per_proc=500, budget_s=1500),
+    det_seeds=24,
+    rule="program drawn from 12 families (normal return, runtime error at iteration k, unrecovered panic at depth d, "
+         "recovered panic in try/catch, sort.Slice with an Ego comparator without/with an error at call m, String() method "
+         "called by fmt without/with an error, error inside a spawned goroutine, goroutines sleeping past main's exit, workers "
+         "left blocked on a channel, nested callbacks), executed 1-3 times; non-trivial = every run; distinct = distinct "
+         "(knobs, scheduler decision sequence) hash",
+    real=["tokenizer, compiler, bytecode VM (incl. per-execution signal watcher), runtime/sort and runtime/fmt callbacks into Ego, runtime/time"],
+    stubbed=["sync: scheduling shim", "Ego channel operations: scheduled (R7)", "time: synctest fake clock", "os/signal delivery is not simulated (the watcher only ever sees its done channel)"],
+    assumptions=["the service-request part of C09 is observed as a probe in the C42 engine, not here"],
+    required_probes=["error_exits", "program_own_blocked_goroutines", "family/sorterr", "family/stringerr", "family/panic"],
+)
